@@ -61,6 +61,21 @@ impl fmt::Display for Scope {
     }
 }
 
+/// the parser accepts any hex string as a public key: keys are decoded here, before the
+/// infallible conversions below, so that an invalid key in Datalog source is an error
+pub(crate) fn check_parsed_scopes<'a>(
+    rules: impl IntoIterator<Item = &'a biscuit_parser::builder::Rule>,
+) -> Result<(), error::Token> {
+    for rule in rules {
+        for scope in &rule.scopes {
+            if let biscuit_parser::builder::Scope::PublicKey(pk) = scope {
+                PublicKey::from_bytes(&pk.key, pk.algorithm.clone().into())?;
+            }
+        }
+    }
+    Ok(())
+}
+
 impl From<biscuit_parser::builder::Scope> for Scope {
     fn from(scope: biscuit_parser::builder::Scope) -> Self {
         match scope {
